@@ -8,6 +8,7 @@
 #include <vector>
 #include <deque>
 #include <map>
+#include <set>
 
 namespace vos {
 
@@ -34,6 +35,11 @@ struct State {
   std::map<int, uint64_t> in_pos;           // bytes delivered by recv() per fd
   std::map<int, uint64_t> dgram_out;        // sendto() calls per fd
   std::map<int, uint64_t> dgram_in;         // recvfrom() deliveries per fd
+  // asynchronous sockets: the queue of buffers the library is expected to transmit, front first
+  struct AQ { long long fut; size_t size; size_t off; long long dst; };
+  std::map<int, std::deque<AQ>> aq;
+  std::set<int> async_fds;
+  std::set<int> opaque_fds;               // content not checked (the driver's signalling pipe)
   bool script_underrun = false;
   int underrun_code = 0;
 };
